@@ -303,7 +303,7 @@ class _Env:
             return cls(status=500)
         return cls("scripted")
 
-    def _old_subscription(self, v):
+    def _old_subscription(self, v, sid=None):
         """establish (and let the publisher forget) a subscription of service v under a SID no event of the case
         uses, so that the next SUBSCRIBE for v is the fall-back of a refused renewal"""
         task0 = self.loop.create_task(self.eh.async_subscribe(self.services[v]))
@@ -314,15 +314,15 @@ class _Env:
             self.tick()
             return False
         _, _, fut = self.parked.pop()
-        fut.set_result((200, {"sid": f"uuid:previous-{v}", "timeout": "Second-1800"}, ""))
+        fut.set_result((200, {"sid": sid or f"uuid:previous-{v}", "timeout": "Second-1800"}, ""))
         self.drain(task0)
         return task0.done() and not task0.cancelled() and task0.exception() is None
 
-    def start(self, v, via_renewal=False):
+    def start(self, v, via_renewal=False, old_sid=None):
         """-> observation of the start step.  With via_renewal the SUBSCRIBE is the one async_resubscribe falls back to
         after the publisher refused the renewal of an earlier subscription (412): the same call as far as the property
         is concerned - events racing ITS response must not be lost either."""
-        if via_renewal and not self.pending[v] and v not in self.renewed and self._old_subscription(v):
+        if via_renewal and not self.pending[v] and v not in self.renewed and self._old_subscription(v, old_sid):
             self.renewed.add(v)
             task = self.loop.create_task(self.eh.async_resubscribe(self.services[v]))
             n0 = len(self.parked)
@@ -659,7 +659,7 @@ class Plugin:
         # the same histories with every first SUBSCRIBE of a service issued by the renewal fall-back of async_resubscribe
         base = list(cases)
         for c in rng.sample(base, min(len(base), 300 if tier != "thorough" else 3000)):
-            cases.append({**c, "via_renewal": True})
+            cases.append({**c, "via_renewal": rng.choice([True, "same_sid"])})
         return cases
 
     def impl_search(self, rng, tier):
@@ -709,6 +709,24 @@ class Plugin:
 
     def run_impl(self, case):
         env = _Env(case["svcs"])
+        # via_renewal == "same_sid": the publisher forgets the earlier subscription and then grants the same SID string
+        # again (a rebooted device with counter-style SIDs): the earlier subscription uses the SID the case's first
+        # response for that service will carry
+        old_sids = {}
+        if case.get("via_renewal") == "same_sid":
+            first_step = {}
+            for idx, st in enumerate(case["steps"]):
+                if st[0] != "notify":
+                    first_step.setdefault(st[1], idx)
+                    if st[0] != "start" and st[2][0] == "resp" and isinstance(st[2][2], str) and st[1] not in old_sids:
+                        old_sids[st[1]] = st[2][2]
+            for v, sid in list(old_sids.items()):
+                # only when no NOTIFY for that SID precedes the service's first SUBSCRIBE (it would be replayed at once
+                # by the earlier subscription, which a plain subscribe has no counterpart for) and no other service is
+                # given the same SID
+                early = any(st[0] == "notify" and st[1].get("sid") == sid for st in case["steps"][:first_step[v]])
+                if early or list(old_sids.values()).count(sid) > 1:
+                    del old_sids[v]
         try:
             obs = []
             for idx, st in enumerate(case["steps"]):
@@ -733,12 +751,12 @@ class Plugin:
                         except Exception:  # noqa: BLE001
                             what = ["notify", "raise", "BadReturn"]
                 elif st[0] == "start":
-                    what = env.start(st[1], case.get("via_renewal", False))
+                    what = env.start(st[1], case.get("via_renewal", False), old_sids.get(st[1]))
                 else:
                     v, r = st[1], st[2]
                     what = None
                     if not env.pending[v]:
-                        w = env.start(v, case.get("via_renewal", False))
+                        w = env.start(v, case.get("via_renewal", False), old_sids.get(v))
                         if w != ["started"]:
                             what = w
                     if what is None:
